@@ -292,6 +292,11 @@ def apply_path(ctx, repo, qual, must_clear):
     I, ic = inst[0]
     loop = g.loop_of(I)
     ok = loop is not None and loop.kind == "for" and ast.unparse(loop.ast.iter) == f"{hp}.changes"
+    if not ok:
+        # the list is reached some other way (a local naming it, an index loop): order and completeness are what the
+        # interpreted scenario above decides (`applies-each-change-once-in-order`); the statement-level rules step aside
+        ctx.note(f"{fi.qual}: the install is not inside a `for ... in {hp}.changes` loop - the apply order is decided by the interpreted scenario only")
+        return
     ctx.ob("R3", f"{qual}::iterates-in-arrival-order", ok,
            f"{fi.qual}: changes are not applied by iterating `{hp}.changes` front to back (iter is `{ast.unparse(loop.ast.iter) if loop is not None and loop.kind == 'for' else None}`)",
            loc(fi, I.ast), sample={"rule": "R3", "function": qual, "loop": loop.text() if loop is not None else None})
@@ -503,6 +508,9 @@ def check(ctx):
     _framing5(ctx.borrowed("R11", "C04", only=("R4",), key_contains="frame-round-trip::payload"), repo)
     ctx.rule("R12", "the acknowledgement leaves: the awaitable protocol's queue_send, built by its own constructor on a recording transport and a model clock, transmits every message it is handed - also several at the same instant - once, in order, to its destination (nothing queues or repeats an acknowledgement)")
     send_path_model(ctx, repo, "R12")
+    ctx.rule("R13", "applying never fails on a value: every change is installed by replace_status_block_segment, which decodes every watched item from the new block - the decode of an enumeration is total over all 256 raw bytes (a byte one past the label list included), else the apply loop is left in the middle of a message: the rest of its changes is dropped, the blocking handler's list is not cleared and is replayed with every later message, the awaitable consumer ends (C11.R4's enum decode borrowed)")
+    from .c11 import enum_decode_total as _edt5
+    _edt5(ctx.borrowed("R13", "C11"), repo, "R4")
     ctx.rule("R9", "message sequences end to end: on both stacks the long-lived partial-update handler, wired to the connection's own apply callback, is driven handle / handled per message with builder-made messages (two messages, an empty one in between, one position repeated within and across messages, a one-byte change): the structure receives every change once, in arrival order, and one acknowledgement is queued per message")
     message_sequence_model(ctx, repo, "R9")
     ctx.note("Not decided: interleaving of partial updates with refreshes; an observer raising during the sync apply loop skips the for-else clear (documented residual).")
